@@ -76,7 +76,7 @@ Definition op_loader (o : op) : nat :=
   | ODiscover l _ => l
   end.
 
-Definition xop_loader (x : xop) : nat := match x with XOp o => op_loader o | XAddTypes l _ => l end.
+Definition xop_loader (x : xop) : nat := match x with XOp o => op_loader o | XAddTypes l _ | XDeclare l _ => l end.
 
 (* one operation; the third answer is the loader the operation's context holds afterwards (c.Loader()) *)
 Definition cstep (cfg : config) (cs : lstate * ctab) (x : xop) : (lstate * ctab) * xout * nat :=
@@ -92,6 +92,12 @@ Definition cstep (cfg : config) (cs : lstate * ctab) (x : xop) : (lstate * ctab)
     let c := via tab l in
     if Nat.ltb c (length st) then
       let '(st', a, top) := ctx_exec (step cfg) add_node (@length lnode) c (length st) st [] (compile (cfg_auth cfg) ts) in
+      ((st', tab_set tab l (hd c top)), XA a, hd c top)
+    else ((st, tab), XA ABadLoader, c)
+  | XDeclare l ts =>                                (* internal/context.go:180 c.Loader(), :192 resolveTypes(c, ...) *)
+    let c := via tab l in
+    if Nat.ltb c (length st) then
+      let '(st', a, top) := ctx_exec (step cfg) add_node (@length lnode) c (length st) st [] (compile_decl (cfg_auth cfg) ts) in
       ((st', tab_set tab l (hd c top)), XA a, hd c top)
     else ((st, tab), XA ABadLoader, c)
   end.
